@@ -21,7 +21,7 @@ ASSUMPTIONS = [
     "number syntax: the loader model accepts exactly the spellings export writes (digits; [ws][-]digits.dd[ws]) — int()/float() of Python accept more, which is outside the property",
     "file I/O, np.savez/pickle, the test-set generator and the feasibility tester are exercised, not proved",
 ]
-PARTIAL = []
+PARTIAL = ["file bytes on disk, np.savez round trip and the test-set generator are runtime behaviour: compared on every run (byte-for-byte / reloaded), not proved; the theorems are about the record and character level model"]
 BUDGET_S = {"quick": 150, "thorough": 900}
 
 
